@@ -563,30 +563,39 @@ class SecopClient(ProxyClient):
         if shutdown:
             self._shutdown.set()
             self._set_state(False, 'shutdown')
-            if self._connthread:
-                if self._connthread == current_thread():
+            connthread = self._connthread  # may be reset by the thread itself in the meantime
+            if connthread:
+                if connthread == current_thread():
                     return
                 # wait for connection thread stopped
-                self._connthread.join()
+                connthread.join()
                 self._connthread = None
         self.disconnect_time = time.time()
         try:  # make sure txq does not block
             while not self.txq.empty():
-                self.txq.get(False)
+                entry = self.txq.get(False)
+                if entry:
+                    entry[1].set()  # release the caller of a request not sent yet
         except Exception:
             pass
-        if self.io:
-            self.io.shutdown()
-        if self._txthread:
+        # the worker threads reset these attributes on their own exit:
+        # do not rely on them staying unchanged
+        io = self.io
+        if io:
+            io.shutdown()
+        txthread = self._txthread
+        if txthread and txthread != current_thread():
             self.txq.put(None)  # shutdown marker
-            self._txthread.join()
+            txthread.join()
             self._txthread = None
-        if self._rxthread:
-            self._rxthread.join()
+        rxthread = self._rxthread
+        if rxthread and rxthread != current_thread():
+            rxthread.join()
             self._rxthread = None
-        if self.io:
-            self.io.disconnect()
-        self.io = None
+        if io:
+            io.disconnect()
+            if self.io is io:
+                self.io = None
         # abort pending requests early
         try:  # avoid race condition
             while self.active_requests:
